@@ -61,6 +61,6 @@ theorem InvT.pres_d1 {cfg : Cfg} {s s' : State} {l : Label} (hB : InvB s) (hC : 
   all_goals (try subst_vars)
   all_goals (try dsimp only)
   all_goals (grind (splits := 30) [upd, Root.kind, TS.active, TS.live, TS.ended, TS.isStopping, failTS, cancelSubs,
-    cancelRoots, Pend.ts, scFailPath, scEarly, G, grace])
+    cancelRoots, cancelRootsV, Pend.ts, scFailPath, scEarly, G, grace])
 
 end Kopf.C20
